@@ -489,6 +489,26 @@ func (fr *Frame) modVarsOfBlocks(blocks map[*ssa.BasicBlock]bool) *ModSet {
 			fr.vc.e.instrMods(in, ms, fr, map[*ssa.Function]bool{})
 		}
 	}
+	// ghost variables assigned by `set` statements anchored at a call inside this region
+	if fr.depth == 0 && fr.vc.fc != nil {
+		for _, gs := range fr.vc.fc.Ghost {
+			if gs.When == "entry" || gs.Assert != nil {
+				continue
+			}
+			for b := range blocks {
+				for _, in := range b.Instrs {
+					if c, ok := in.(ssa.CallInstruction); ok {
+						if cal := c.Common().StaticCallee(); cal != nil {
+							short := fr.vc.e.shortName(cal.String())
+							if gs.Callee == shortFn(short) || gs.Callee == short {
+								ms.Ghost[gs.Var] = true
+							}
+						}
+					}
+				}
+			}
+		}
+	}
 	for root, cells := range ms.Elem {
 		bad := ms.Vars[root]
 		for _, c := range cells {
@@ -531,7 +551,13 @@ func (fr *Frame) havoc(st, pre *State, reach *Term, ms *ModSet, hint string) {
 	defer func() {
 		al := vc.allocArr(st)
 		for _, c := range closed {
-			vc.closure(st, c[0].(string), c[1].(*Term), al)
+			name := c[0].(string)
+			vc.closure(st, name, c[1].(*Term), al)
+			// a local variable always holds nil or an allocated reference
+			switch vc.localKinds[name] {
+			case "ref", "sb", "map":
+				vc.assume(reach, Or(Eq(c[1].(*Term), Zero), Sel(al, c[1].(*Term))))
+			}
 		}
 	}()
 	if len(ms.Allocs) > 0 {
@@ -766,7 +792,7 @@ func (fr *Frame) lval(v ssa.Value, st *State, reach *Term, pos token.Pos) *LVal 
 }
 
 func (fr *Frame) nilCheck(p *Term, reach *Term, pos token.Pos, what string) {
-	if fr.fc != nil && fr.fc.Mode == "nosafety" {
+	if fr.vc.fc != nil && fr.vc.fc.Mode == "nosafety" {
 		return
 	}
 	fr.vc.oblige("safe.nil", fr.lbl(""), reach, Not(Eq(p, Zero)), fr.pos(pos), "nil dereference", nil, "")
@@ -1014,11 +1040,14 @@ func (fr *Frame) noteLV(lv *LVal) {
 	for _, l := range fr.vc.e.layout(lv.Typ) {
 		n, s := fr.vc.leafVar(lv, l)
 		fr.vc.noteSort(n, s)
+		if lv.Kind == LLocal {
+			fr.vc.localKinds[n] = l.Kind
+		}
 	}
 }
 
 func (fr *Frame) boundsCheck(idx, n *Term, reach *Term, pos token.Pos) {
-	if fr.fc != nil && fr.fc.Mode == "nosafety" {
+	if fr.vc.fc != nil && fr.vc.fc.Mode == "nosafety" {
 		return
 	}
 	fr.vc.oblige("safe.idx", fr.lbl(""), reach, And(App("<=", Zero, idx), App("<", idx, n)), fr.pos(pos), "index out of range", nil, "")
